@@ -717,7 +717,14 @@ static Case gen_case_inner(const std::string &profile, uint64_t seed, const GenO
         op.dyn_snode = false;
         op.x.nprocs = (int)rc.range(1, 4);
         op.x.panel_size = (int)op.ienv[1]; op.x.relax = (int)op.ienv[2];
-        bool expert = rc.chance(0.6);
+        // two-call configurations (drawn from a stream of their own): a fault-free first factorization through the expert driver, then the
+        // call under test is a re-factorization (new values, pivot reuse or not, often more threads) or a solve that reuses the factors
+        Rng rt(sim::derive(seed / (uint64_t)go.S, 0x2095));
+        bool two = rt.chance(0.4);
+        int second_kind = rt.chance(0.65) ? 1 : 2, p2 = (int)rt.range(1, 4), tr2 = (int)rt.below(2);
+        if ((long)(seed % (uint64_t)go.S) == 1) second_kind = 1;   // a workspace query exists for factorizing calls only (p?gssvx ignores lwork when fact = FACTORED)
+        bool usepr2 = rt.chance(0.5), more_threads = rt.chance(0.6);
+        bool expert = rc.chance(0.6) || two;
         op.kind = expert ? OP_GSSVX : OP_GSSV;
         op.x.u = 1.0; op.x.fact = expert ? (rc.chance(0.5) ? 1 : 0) : 0; op.x.trans = expert ? (int)rc.below(2) : 0;
         long item = (long)(seed % (uint64_t)go.S);
@@ -767,6 +774,22 @@ static Case gen_case_inner(const std::string &profile, uint64_t seed, const GenO
             op.kind = OP_GSSVX; op.x.fact = expert ? op.x.fact : 0;
             op.x.lwork = lw; op.x.work_align = rs.chance(0.5) ? 4 : 0;
             c.tags["alloc_lwork"] = lw;
+        }
+        if (two) {
+            OpSpec first = op;
+            first.faults = sim::FaultPlan(); first.x.refact = 0; first.x.usepr = 0; first.values_id = 0;
+            if (op.x.lwork == -1) { first.x.lwork = 0; first.x.work_align = 0; }       // the query is the second call
+            Rng rs1(sim::derive(seed, 0x2096));
+            gen_sched(rs1, first.sched, first.x.nprocs, item == 0, profile);
+            if (second_kind == 1) {
+                c.values.push_back(gen_values(rt, c.M, V_DOMINANT, c.prec, c.transversal));
+                op.x.refact = 1; op.x.usepr = usepr2 ? 1 : 0; op.values_id = 1; op.x.fact = first.x.fact;
+                op.x.nprocs = more_threads ? std::min(6, first.x.nprocs + (int)rt.range(1, 3)) : p2;
+            } else {
+                op.x.fact = 2; op.x.trans = tr2; op.values_id = 0; op.x.nprocs = std::min(2, p2);
+            }
+            c.tags["alloc_two_call"] = second_kind;
+            c.ops.push_back(first);
         }
         c.ops.push_back(op);
         return c;
